@@ -40,6 +40,7 @@ import TraitsVerif.Lemmas.CTabIndex
 import TraitsVerif.Lemmas.CTabLedger
 import TraitsVerif.Lemmas.CTabRaw
 import TraitsVerif.Generated.RefPaths
+import TraitsVerif.Generated.RefBorrows
 import TraitsVerif.Lemmas.RefPaths
 namespace TraitsVerif.Props.C18
 open TraitsVerif TraitsVerif.Generated TraitsVerif.Model.FuncIndex TraitsVerif.Lemmas.CTab
@@ -879,6 +880,112 @@ example :
     Model.RefPaths.pathOk ⟨"f", 0, "return -1", true, [(2, .new), (2, .dec), (2, .dec)]⟩ = false ∧
     Model.RefPaths.pathOk ⟨"f", 0, "return -1", true, [(3, .bad)]⟩ = false ∧
     Model.RefPaths.pathOk ⟨"f", 0, "return 0", false, [(4, .store), (4, .inc), (5, .new), (5, .ret)]⟩ = true := by
+  decide
+
+/-! ## (e) No stale borrow on any control-flow path
+
+`harness/translate/crefborrows.py` runs the same reader over the same functions
+and records, per path, when a value is acquired FIELD-BORROWED (read from an
+object field of a struct, or taken out of a field-borrowed tuple / of a list or
+dict without `Py_INCREF`), when it is protected (`Py_INCREF` .. `Py_DECREF`),
+when a call that can run arbitrary Python code returns (`acall`: the trusted
+table `crefpaths.ACALL` / `ACALL_FIELDS` closed over the call graph of the
+file; releases and dictionary operations on attribute names deliberately left
+out) and when the value is used.  A use after an `acall` that found neither the
+value nor an ancestor tuple protected is a stale borrow - the defect class of
+the use-after-free repaired in baa32de (`validate_trait_complex` walked
+`trait->py_validate` while a member validator replaced it).  The repaired code
+passes because its wrapper keeps `trait->py_validate` alive around
+`validate_trait_complex_body` (`CALLER_PROTECTS`, verified by the translator at
+every call site). -/
+
+/-- The exceptions, by name: (function, value).  Found on the pinned tree by the
+analysis; not confirmed at run time unless said so (known_findings F130..):
+* `getattr_trait`, `setattr_trait`: `dict = obj->obj_dict` is used for the
+  `PyDict_SetItem` / `PyDict_GetItem` after the default computation / the
+  validator ran (which may replace `obj.__dict__`);
+* `setattr_trait`, `trait_property_changed`: the notifier lists
+  `traito->notifiers` / `obj->notifiers` are read before `post_setattr` /
+  `has_traits_getattro` run and handed to `call_notifiers` afterwards;
+* `setattr_delegate`: the delegate object and the delegated trait taken out of
+  dictionaries (`temp_delegate`, `traitd`) without `Py_INCREF` are used after
+  `delegate_attr_name` / `has_traits_getattro` / `get_prefix_trait`;
+* `validate_trait_adapt`: `type = PyTuple_GET_ITEM(trait->py_validate, 1)` is used
+  after the `adapt` call;
+* `validate_trait_tuple` hands `PyTuple_GET_ITEM(trait->py_validate, 1)` to
+  `validate_trait_tuple_check`, which keeps using it after member validators ran
+  (`Generated.RefBorrows.usesParamsLate`: a callee that uses a parameter after
+  arbitrary code makes the unprotected argument a stale use in the CALLER) - this
+  one IS confirmed at run time (a member validator that replaces the validator
+  crashes the interpreter);
+* `_has_traits_trait`, `getattr_delegate`, `setattr_delegate` hand
+  `trait->delegate_name` to `has_traits_getattro`, which uses the name after the
+  lookup ran arbitrary code. -/
+def knownStaleBorrows : List (String × String) := [
+  ("getattr_trait", "obj->obj_dict"),
+  ("setattr_trait", "obj->obj_dict"),
+  ("setattr_trait", "traito->notifiers"),
+  ("setattr_trait", "obj->notifiers"),
+  ("trait_property_changed", "trait->notifiers"),
+  ("trait_property_changed", "obj->notifiers"),
+  ("setattr_delegate", "temp_delegate"),
+  ("setattr_delegate", "temp_delegate~2"),
+  ("setattr_delegate", "traitd~2"),
+  ("setattr_delegate", "traitd~3"),
+  ("validate_trait_adapt", "type"),
+  ("validate_trait_tuple", "PyTuple_GET_ITEM()"),
+  ("_has_traits_trait", "trait->delegate_name"),
+  ("_has_traits_trait", "trait->delegate_name~2"),
+  ("getattr_delegate", "trait->delegate_name"),
+  ("setattr_delegate", "traitd->delegate_name"),
+  ("setattr_delegate", "traitd->delegate_name~2")]
+
+/-- Indices (in `Generated.RefBorrows.values`) of the values excepted on path `p`. -/
+def knownStaleSkip (p : Model.RefBorrows.BPath) : List Nat :=
+  (knownStaleBorrows.filter (·.1 == p.fn)).map (fun k => Generated.RefBorrows.values.idxOf k.2)
+
+def borrowOkKnown (p : Model.RefBorrows.BPath) : Bool := Model.RefBorrows.borrowOkExcept (knownStaleSkip p) p
+
+set_option maxRecDepth 100000 in
+/-- **On no control-flow path of the covered functions is a field-borrowed value
+used after a call that can run arbitrary code without a protecting reference**,
+the named exceptions aside.  Reverting baa32de (or dropping the `Py_INCREF` of a
+borrowed delegate in `getattr_delegate`) changes the generated table and this
+proof no longer checks. -/
+theorem C18_paths_no_stale_borrow : ∀ p ∈ Generated.RefBorrows.borrowPaths, borrowOkKnown p = true :=
+  List.all_eq_true.mp (by decide)
+
+set_option maxRecDepth 100000 in
+/-- The exceptions are real, not slack: each listed value is used stale on some path of its function. -/
+theorem C18_paths_known_stale_borrows_real :
+    (knownStaleBorrows.all fun k => Generated.RefBorrows.borrowPaths.any fun p =>
+      p.fn == k.1 && (Model.RefBorrows.staleBorrows p).contains (Generated.RefBorrows.values.idxOf k.2)) = true := by
+  decide
+
+/-- The repaired walk is among the paths (non-vacuity: `validate_trait_complex_body`
+has field-borrowed items used after arbitrary calls, all under the caller's
+protection), none of the borrow analyses was given up, `validate_trait_tuple_check`
+is known to use its first parameter after arbitrary code, and the functions
+named are reported as able to run arbitrary code. -/
+theorem C18_paths_borrow_cover :
+    Generated.RefBorrows.unread = [] ∧
+    Generated.RefBorrows.usesParamsLate.lookup "validate_trait_tuple_check" = some [0, 1, 2, 3] ∧
+    (["validate_trait_complex_body", "validate_trait_complex", "getattr_delegate", "setattr_trait"].all
+      fun f => Generated.RefBorrows.covered.contains f) = true ∧
+    (["validate_trait_complex_body", "call_notifiers", "default_value_for", "raise_trait_error"].all
+      fun f => Generated.RefBorrows.arbitrary.contains f) = true := by
+  decide
+
+/-- The shape of the defect repaired in baa32de and of its repair: the tuple of
+alternatives (value 0) read from `trait->py_validate`, an item (value 1) taken
+out of it, a member validator called, the item used: stale - and not when the
+tuple is protected first, nor when the item is read again after the call. -/
+example :
+    Model.RefBorrows.borrowOk ⟨"f", 0, [(0, .fborrow none), (1, .fborrow (some 0)), (0, .acall), (1, .use)]⟩ = false ∧
+    Model.RefBorrows.borrowOk ⟨"f", 0, [(0, .fborrow none), (0, .protect), (1, .fborrow (some 0)), (0, .acall),
+      (1, .use), (0, .use), (0, .unprotect)]⟩ = true ∧
+    Model.RefBorrows.borrowOk ⟨"f", 0, [(0, .fborrow none), (0, .acall), (0, .fborrow none), (0, .use)]⟩ = true ∧
+    Model.RefBorrows.borrowOk ⟨"f", 0, [(0, .fborrow none), (0, .protect), (0, .unprotect), (0, .acall), (0, .use)]⟩ = false := by
   decide
 
 end TraitsVerif.Props.C18
